@@ -204,6 +204,12 @@ theorem C39_override_replaces_list (srcs : List (Option Source)) (ovs : List Ove
   rw [effective_some K low init D h, foldl_override_list, hovs]
   exact foldl_sel_last _ _ pre post x _ hx hpost
 
+-- non-vacuity: `-o parse.buildfilename:x,y` on top of a file that set the option twice
+-- (the hypotheses are met: the configuration exists and the override hits the option; its value is then
+-- `"x,y".splitOn ","` by the theorem)
+example : (effective kindOf lowOf (initOf [] []) (defaultsOf []) [some [⟨4, some "A"⟩, ⟨4, some "B"⟩]] [⟨4, "x,y"⟩]).isSome = true ∧
+    ovHits kindOf lowOf 1 4 ⟨4, "x,y"⟩ = true := by decide
+
 /-- The documented default applies when no source sets the option (and nothing is pre-populated). -/
 theorem C39_list_default_when_unset (srcs : List (Option Source)) (ovs : List Override) (c : Cfg) (o : Nat)
     (h : effective K low init D srcs ovs = some c) (hk : K o = .list)
